@@ -475,6 +475,9 @@ for _fn in ("sin", "cos", "tan", "sec", "csc", "cot", "sinh", "cosh", "tanh", "e
             "sinpi", "cospi", "expj", "expjpi", "log1p", "expm1", "sinc", "acot", "acsch"):
     reg(_fn, "small", _small, .8)
 reg("log", "small_offset", lambda rng, p: [1 + g_val(rng, p, rng.randint(-40, -3))], .8)
+# a power of two times 1 + 2^-k with k beyond the precision (an exact argument longer than the precision): the x = 1 + eps
+# shortcut of mpf_log must fire for 0.5 < x < 2 only (it fired for 0.25 <= x < 0.5 too before fix 690b69f)
+reg("log", "pow2_offset_long", lambda rng, p: [Fraction(2) ** rng.choice([-3, -2, -2, -2, -1, 1, 2, 3]) * (1 + Fraction(1, 2 ** (p + rng.randint(24, 70))))], 1.5)
 reg("acosh", "small_offset", lambda rng, p: [1 + abs(g_val(rng, p, rng.randint(-12, -3)))], .5)
 FUNCS = sorted(R)
 PRECS_QUICK = [10, 24, 53, 113, "400", "600", 1000]
@@ -568,7 +571,7 @@ def generate(rng, tier_, n_calls, fns=None, only=None):
     fns = fns or FUNCS
     # stratified: every (function, regime) cell once, the cells that need a particular shape of argument to go wrong three times,
     # the rest of the budget at random by weight
-    HARD = {"near1_in_long", "near1_in", "bigint", "kpi2", "c_int", "near1_base", "c_near_i", "c_cut"}
+    HARD = {"near1_in_long", "near1_in", "bigint", "kpi2", "c_int", "near1_base", "c_near_i", "c_cut", "pow2_offset_long"}
     plan = []
     for fn_ in fns:
         for tag_, w_, g_ in R[fn_]:
